@@ -1353,7 +1353,8 @@ class LangServer:
             # Update file contents with changes
             reparse_req = True
             if self.sync_type == 1:
-                file_obj.apply_change(params["contentChanges"][0])
+                for change in params["contentChanges"]:
+                    file_obj.apply_change(change)
             else:
                 try:
                     reparse_req = False
